@@ -49,6 +49,7 @@ import Lattigo.Proofs.InnerSumSchemes
 import Lattigo.Proofs.SlotLawful
 import Lattigo.Proofs.RotateSlots
 import Lattigo.Props.C11Gen
+import Lattigo.Props.C11Ring
 import Mathlib.Tactic.NormNum.Prime
 
 namespace Lattigo.Props.C11
